@@ -45,7 +45,8 @@ def net_case(torch, seed, mode):
     from plinio.methods.pit.nn import PITConv1d, PITConv2d, PITLinear
     from plinio.methods.pit.nn.features_masker import PITFrozenFeaturesMasker
     rng = random.Random(seed)
-    spec = ga.gen(rng, dim=rng.choice([1, 1, 2]), conv_head=True, k1d=list(range(1, 13)))
+    spec = ga.gen(rng, dim=rng.choice([1, 1, 2]), conv_head=True, k1d=list(range(1, 13)), p_intpad=0.5, p_stride=0.25,
+                  weights={'nestcat': 0.08})
     if rng.random() < 0.3:
         spec = ga.add_output_head(spec, rng)
     unsupported = rng.random() < 0.12
